@@ -73,6 +73,24 @@ int main(int argc, char** argv) {
         ++checks; if (r.has_value() != run.ok) { fail(std::string("parse ") + (r ? "succeeded" : "failed") + ", expected the opposite; stream: " + es.str()); continue; }
         ++checks; if (es.str() != want) fail("stream '" + es.str() + "' expected '" + want + "'");
     }
+    {   // second grammar: term names that are long or contain characters special to formatting; the message must carry the complete documented name
+        static constexpr char k40[] = "keywordkeywordkeywordkeywordkeywordkeyword";                              // string term: its name is the string (42 chars)
+        static constexpr char up_pat[] = "[A-Z]+";
+        static constexpr char dg_pat[] = "[0-9][0-9][0-9][0-9][0-9][0-9][0-9][0-9]x";                           // unnamed regex term: name r_ + pattern (43 chars)
+        static constexpr regex_term<up_pat> upper("an_upper_case_word_with_a_descriptive_name_that_is_rather_long_0123456789");
+        static constexpr regex_term<dg_pat> digits(0);
+        static constexpr nterm<int> root("root");
+        static const parser q(root, terms(';', k40, upper, digits, "%s'q%d"), nterms(root), rules(root(';') >= val(1)));
+        struct LT { const char* lexeme; std::string name; };
+        const LT lts[] = {{k40, k40}, {"AB", "an_upper_case_word_with_a_descriptive_name_that_is_rather_long_0123456789"}, {"12345678x", std::string("r_") + dg_pat}, {"%s'q%d", "%s'q%d"}};
+        for (const LT& lt : lts) for (int form = 0; form < 3; ++form) {
+            std::string in = form == 0 ? std::string(lt.lexeme) : form == 1 ? ";" + std::string(lt.lexeme) : " \n  " + std::string(lt.lexeme);
+            std::string want = (form == 0 ? "[1:1]" : form == 1 ? "[1:2]" : "[2:3]") + std::string(" PARSE: Syntax error: Unexpected '") + lt.name + "'\n";
+            std::ostringstream es; auto r = q.parse(string_buffer(std::string(in)), es);
+            ++cases; ++checks; ++synerr;
+            if (r.has_value() || es.str() != want) { ++fails; if (first.empty()) first = "long-name grammar, input '" + in + "': stream '" + es.str() + "' expected '" + want + "'"; }
+        }
+    }
     std::string esc; for (char c : first) { if (c == '"' || c == '\\') esc += '\\'; if (c == '\n') { esc += "\\n"; continue; } esc += c; }
     std::printf("{\"cases\": %ld, \"checks\": %ld, \"failures\": %ld, \"accepted\": %ld, \"lexical_errors\": %ld, \"syntax_errors\": %ld, \"first_failure\": \"%s\"}\n", cases, checks, fails, accepted, lexerr, synerr, esc.c_str());
     return fails ? 1 : 0;
